@@ -173,6 +173,22 @@ def f(x: int) -> float:
 ]
 
 
+# "maybe not defined" diagnostics with several branch notes: their content is computed from collections of basic
+# blocks (hashed by address), so an order-dependent choice shows up under heap perturbation.  Several shapes, to
+# give every run a good chance of two different address orders.
+_MAYBE_SHAPES = {
+    "nested-if": "    if a:\n        if b:\n            y = 1\n    return y\n",
+    "if-in-loop": "    while n > 0:\n        if a:\n            if b:\n                y = n\n        n -= 1\n    return y\n",
+    "three-deep": "    if a:\n        if b:\n            if n > 1:\n                y = 1\n    return y\n",
+    "two-vars": "    if a:\n        if b:\n            y = 1\n            z = 2\n    if b:\n        if a:\n            z = 3\n    return y + z\n",
+    "elif-chain": "    if a:\n        y = 1\n    elif b:\n        if n > 2:\n            y = 2\n    elif n > 5:\n        y = 3\n    return y\n",
+    "loop-break": "    while n > 0:\n        if a:\n            if b:\n                y = n\n                break\n        n -= 1\n    return y\n",
+}
+for _k in range(3):  # the same shapes three times: three different allocation points within one worker
+    for _mn, _mb in _MAYBE_SHAPES.items():
+        WITNESSES.append({"name": f"maybe-undefined-{_mn}-{_k}", "target": "f",
+                          "src": f"@guppy\ndef f(a: bool, b: bool, n: int) -> int:\n{_mb}"})
+
 # diagnostics that mention a Python VALUE (comptime expressions Guppy cannot represent): the text must not
 # contain anything run-dependent (default reprs with addresses, hash-ordered set reprs).  values x positions.
 _COMPTIME_VALUES = {
